@@ -43,7 +43,8 @@ var nameVocab = []string{"web", "web-1", "web-10", "api", "api.v2", "db", "db2",
 var imageVocab = []string{"nginx:1", "nginx:1.25", "redis", "postgres:16", "busybox", "ghcr.io/acme/app:v2"}
 var stateVocab = []string{"running", "exited", "paused", "created"}
 var labelKeyVocab = []string{"com.docker.compose.service", "com.docker.compose.project", "app/tier", "zone-1", "tier", "weight", "1st", "maintainer", "org.opencontainers.image.title"}
-var labelValVocab = []string{"web", "db", "a", "ab", "b", "", "x y", "1", "2", "12", "tier", "front-end"}
+var labelValVocab = []string{"web", "db", "a", "ab", "b", "", "x y", "1", "2", "12", "tier", "front-end",
+	"line1\nline2", "q\"uote", "back\\slash", "ünï", "(x)", "a.b", "web"}
 
 func hexID(r *Rng) string { return fmt.Sprintf("%012x", r.Uint64()&0xffffffffffff) }
 
@@ -100,6 +101,15 @@ func GenWorld(r *Rng, s WorldSpec) World {
 			for k := cr.Intn(4); k > 0; k-- {
 				kv := Pick(cr, sets)
 				c.Labels[kv[0]] = kv[1]
+			}
+		}
+		if s.Labels != "" && cr.Bool(0.04) {
+			// A wide label set: more labels than any fixed-size shortcut would hold.
+			if c.Labels == nil {
+				c.Labels = map[string]string{}
+			}
+			for k, n := 0, 30+cr.Intn(15); k < n; k++ {
+				c.Labels[fmt.Sprintf("k%02d", k)] = fmt.Sprint(k % 3)
 			}
 		}
 		if cr.Bool(0.25) {
